@@ -32,6 +32,8 @@ pub enum DrawPolicy {
     Max,
     MinPlus1,
     Mid,
+    /// min, max, min, max, ... on successive draws of one execution (a draw taken twice shows)
+    Alternate,
 }
 
 pub type SiteFilter = Arc<dyn Fn(&str) -> bool + Send + Sync>;
@@ -50,6 +52,10 @@ pub struct Ctl {
     /// rounds of a "long" pre-emption (0 = only single-round yields are offered)
     pub long_yield: usize,
     forced: std::collections::HashMap<u64, usize>,
+    draws: u64,
+    /// offer "sleep until everything else has quiesced" (1 ms of virtual time) at sched points
+    pub quiesce: bool,
+    sleep_pending: std::collections::HashSet<u64>,
 }
 
 pub const MAX_VISITS: u64 = 2_000_000;
@@ -172,18 +178,36 @@ fn sched_choose(name: &'static str) -> bool {
         return false;
     }
     let long = long_rounds();
-    match choose(name, if long > 0 { 3 } else { 2 }) {
-        0 => false,
-        1 => true,
-        _ => {
-            CTL.with(|c| {
-                if let Some(ctl) = c.borrow_mut().as_mut() {
-                    ctl.forced.insert(tk, long - 1);
-                }
-            });
-            true
-        }
+    let quiesce = CTL.with(|c| c.borrow().as_ref().map(|c| c.quiesce).unwrap_or(false));
+    let n = 2 + (long > 0) as usize + quiesce as usize;
+    let k = choose(name, n);
+    if k == 0 {
+        return false;
     }
+    if k == 1 {
+        return true;
+    }
+    if long > 0 && k == 2 {
+        CTL.with(|c| {
+            if let Some(ctl) = c.borrow_mut().as_mut() {
+                ctl.forced.insert(tk, long - 1);
+            }
+        });
+        return true;
+    }
+    // quiesce: no yield now; the point then sleeps 1 ms of virtual time (see point_sleep)
+    CTL.with(|c| {
+        if let Some(ctl) = c.borrow_mut().as_mut() {
+            ctl.sleep_pending.insert(tk);
+        }
+    });
+    false
+}
+
+fn take_sleep() -> Option<Duration> {
+    let tk = task_key();
+    let hit = CTL.with(|c| c.borrow_mut().as_mut().map(|ctl| ctl.sleep_pending.remove(&tk)).unwrap_or(false));
+    if hit { Some(Duration::from_millis(1)) } else { None }
 }
 
 struct HookImpl;
@@ -191,6 +215,9 @@ struct HookImpl;
 impl anytls_rs::verif::Hooks for HookImpl {
     fn point(&self, name: &'static str) -> bool {
         sched_choose(name)
+    }
+    fn point_sleep(&self, _name: &'static str) -> Option<Duration> {
+        take_sleep()
     }
     fn draw(&self, min: i64, max: i64) -> Option<i64> {
         let pol = CTL.with(|c| c.borrow().as_ref().map(|c| c.draw));
@@ -200,6 +227,19 @@ impl anytls_rs::verif::Hooks for HookImpl {
             Some(DrawPolicy::Max) => Some(max),
             Some(DrawPolicy::MinPlus1) => Some((min + 1).min(max)),
             Some(DrawPolicy::Mid) => Some(min + (max - min) / 2),
+            Some(DrawPolicy::Alternate) => {
+                let n = CTL.with(|c| {
+                    let mut g = c.borrow_mut();
+                    match g.as_mut() {
+                        Some(ctl) => {
+                            ctl.draws += 1;
+                            ctl.draws
+                        }
+                        None => 1,
+                    }
+                });
+                Some(if n % 2 == 1 { min } else { max })
+            }
         }
     }
 }
@@ -224,6 +264,9 @@ pub async fn hpoint(name: &'static str) {
     }
     while sched_choose(name) {
         YieldOnce(false).await;
+    }
+    if let Some(d) = take_sleep() {
+        tokio::time::sleep(d).await;
     }
 }
 
@@ -308,6 +351,8 @@ pub struct ExecCfg {
     pub watchdog: Duration,
     /// offer "stay pre-empted / pending for this many rounds" as one deviation (0 = off)
     pub long_yield: usize,
+    /// offer "sleep until every other task has gone idle" at sched points as one deviation
+    pub quiesce: bool,
 }
 
 impl Default for ExecCfg {
@@ -318,6 +363,7 @@ impl Default for ExecCfg {
             horizon: Duration::from_secs(6 * 3600),
             watchdog: Duration::from_secs(60),
             long_yield: 0,
+            quiesce: false,
         }
     }
 }
@@ -347,6 +393,9 @@ pub fn run_exec(sc: &ScenarioFn, cfg: &ExecCfg, prefix: &[u16], expect_hash: u64
                     notes: Vec::new(),
                     long_yield: cfg2.long_yield,
                     forced: std::collections::HashMap::new(),
+                    draws: 0,
+                    quiesce: cfg2.quiesce,
+                    sleep_pending: std::collections::HashSet::new(),
                 })
             });
             let old = anytls_rs::verif::install(Some(Rc::new(HookImpl)));
@@ -833,6 +882,17 @@ pub fn explore_many(
     items: Vec<(ScenarioFn, ExploreCfg)>,
     total_workers: usize,
 ) -> Vec<Result<ExploreStats, String>> {
+    explore_many_opt(items, total_workers, true, None)
+}
+
+/// `iterative`: deepen 0..=bound per item; otherwise explore exactly at the item's bound.
+/// `deadline`: global real-time deadline; an item started after it gets a zero budget (reported as capped).
+pub fn explore_many_opt(
+    items: Vec<(ScenarioFn, ExploreCfg)>,
+    total_workers: usize,
+    iterative: bool,
+    deadline: Option<Instant>,
+) -> Vec<Result<ExploreStats, String>> {
     let n = items.len();
     if n == 0 {
         return vec![];
@@ -857,7 +917,10 @@ pub fn explore_many(
                 let (sc, cfg) = &items[i];
                 let mut cfg = cfg.clone();
                 cfg.workers = inner;
-                let r = explore_iterative(sc, &cfg);
+                if let Some(d) = deadline {
+                    cfg.time_cap = cfg.time_cap.min(d.saturating_duration_since(Instant::now()));
+                }
+                let r = if iterative { explore_iterative(sc, &cfg) } else { explore(sc, &cfg) };
                 results.lock().unwrap()[i] = Some(r);
             }
         }));
